@@ -254,3 +254,34 @@ func H_close_accounting() {
 	symx.Assert(len(got) <= 2, "nothing is received that was not sent")
 	symx.Reach("end")
 }
+
+// H_two_senders_late_receiver (seed C09h): two producers, ONE send each, a single consumer
+// that may arrive after both sends were issued. On an unbuffered channel three kinds of
+// waiter share the condition variable (a sender waiting for the slot, a sender waiting for
+// its value to be taken, the receiver): every wake-up that frees the slot has to reach the
+// sender waiting for it. Fewer operations than H_pc, so a higher preemption bound is affordable.
+func H_two_senders_late_receiver() {
+	capacity := symx.Choose("cap", 2)
+	c := newChan(capacity)
+	v := [2]int{symx.Int("v0"), symx.Int("v1")}
+	symx.Assume(v[0] != v[1])
+	var wg sync.WaitGroup
+	okSend := [2]bool{}
+	for p := 0; p < 2; p++ {
+		wg.Add(1)
+		p := p
+		go func() {
+			okSend[p] = c.Send(data.NewIntValue(v[p]))
+			wg.Done()
+		}()
+	}
+	a, ok1 := c.Receive()
+	b, ok2 := c.Receive()
+	wg.Wait()
+	symx.Assert(ok1 && ok2, "receive on an open channel with pending senders yields a value")
+	symx.Assert(okSend[0] && okSend[1], "send on an open channel reports success")
+	ga, gb := intOf(a), intOf(b)
+	symx.Assert((ga == v[0] && gb == v[1]) || (ga == v[1] && gb == v[0]), "each value delivered exactly once")
+	symx.Assert(c.Len() == 0, "nothing left behind")
+	symx.Reach("end")
+}
